@@ -146,6 +146,75 @@ def build(repo: str) -> Dict[str, Any]:
     return out
 
 
+HTTP = "sdk/basyx/aas/adapter/http.py"
+
+
+def build_http(repo: str) -> Dict[str, Any]:
+    """Which reader `HTTPApiDecoder` uses for a request body: `json_list` assigns `decoder = <A> if stripped else <B>` and hands it to
+    json.loads; `xml` calls `read_aas_xml_element(..., stripped=<expr>, failsafe=<expr>)`.  -> rows (format, stripped, class | None,
+    failsafe argument | None)"""
+    out: Dict[str, Any] = {"http": [], "unrecognised": []}
+    tree = ast.parse(open(os.path.join(repo, HTTP), encoding="utf-8").read())
+    cls = next((n for n in tree.body if isinstance(n, ast.ClassDef) and n.name == "HTTPApiDecoder"), None)
+    if cls is None:
+        out["unrecognised"].append(f"{HTTP}: no class HTTPApiDecoder")
+        return out
+    fns = {n.name: n for n in cls.body if isinstance(n, ast.FunctionDef)}
+    jl = fns.get("json_list")
+    if jl is None or "stripped" not in [a.arg for a in jl.args.args]:
+        out["unrecognised"].append(f"{HTTP}: HTTPApiDecoder.json_list(stripped) not found")
+    else:
+        dec = [n for n in ast.walk(jl) if isinstance(n, (ast.Assign, ast.AnnAssign))
+               and ast.unparse(n.targets[0] if isinstance(n, ast.Assign) else n.target) == "decoder"]
+        loads = [n for n in ast.walk(jl) if isinstance(n, ast.Call) and ast.unparse(n.func) == "json.loads"]
+        uses = [k for c in loads for k in c.keywords if k.arg == "cls" and ast.unparse(k.value) == "decoder"]
+        if len(dec) != 1 or dec[0].value is None or len(loads) != 1 or len(uses) != 1:
+            out["unrecognised"].append(f"{HTTP}: json_list: decoder assignment / json.loads(cls=decoder) not in the expected shape")
+        else:
+            for sp in (False, True):
+                try:
+                    out["http"].append({"fmt": "json-dec", "stripped": sp, "cls": _value(dec[0].value, {"stripped": sp}), "failsafe": None})
+                except Unrecognised as e:
+                    out["unrecognised"].append(f"{HTTP}: json_list: {e}")
+    xm = fns.get("xml")
+    calls = [n for n in ast.walk(xm) if isinstance(n, ast.Call) and ast.unparse(n.func) == "read_aas_xml_element"] if xm else []
+    if len(calls) != 1:
+        out["unrecognised"].append(f"{HTTP}: HTTPApiDecoder.xml: {len(calls)} calls of read_aas_xml_element")
+    else:
+        kw = {k.arg: k.value for k in calls[0].keywords}
+        for sp in (False, True):
+            try:
+                vals = {}
+                for name in ("stripped", "failsafe"):
+                    e = kw.get(name)
+                    if e is None:
+                        raise Unrecognised(f"no keyword {name}")
+                    vals[name] = e.value if isinstance(e, ast.Constant) and isinstance(e.value, bool) else _cond(e, {"stripped": sp})
+                if "decoder" in kw:
+                    raise Unrecognised("a decoder class is passed")
+                out["http"].append({"fmt": "xml-dec", "stripped": sp, "cls": None, "failsafe": vals["failsafe"], "stripped_arg": vals["stripped"]})
+            except Unrecognised as e:
+                out["unrecognised"].append(f"{HTTP}: xml: {e}")
+    return out
+
+
+def emit_lean_http(d: Dict[str, Any]) -> str:
+    rows = []
+    for r in d["http"]:
+        if r["cls"] is not None:
+            rows.append(f'  ("{r["fmt"]}", {"true" if r["stripped"] else "false"}, some "{r["cls"]}", none, none)')
+        else:
+            rows.append(f'  ("{r["fmt"]}", {"true" if r["stripped"] else "false"}, none, {_lb(r["failsafe"])}, {_lb(r["stripped_arg"])})')
+    return "\n".join([
+        "/-! GENERATED by py/translate/select_tables.py from adapter/http.py - do not edit.",
+        "    Which reader HTTPApiDecoder uses for a request body with `level=core` absent / present (stripped = false / true):",
+        "    a decoder class handed to json.loads, or the (failsafe, stripped) arguments handed to read_aas_xml_element. -/",
+        "namespace Basyx.Gen.SelectHttp", "",
+        "/-- (module of the reader, stripped request?, decoder class passed, failsafe argument, stripped argument) -/",
+        "def bodyReaders : List (String × Bool × Option String × Option Bool × Option Bool) := [",
+        ",\n".join(rows) + "]", "", "end Basyx.Gen.SelectHttp", ""])
+
+
 def _lb(b: Optional[bool]) -> str:
     return "none" if b is None else ("some true" if b else "some false")
 
